@@ -20,12 +20,24 @@ inductive Item where
   | raise                                  -- the real backend method raised at this point
 deriving Inhabited
 
+/-- which complete population model is loaded -/
+inductive PopCfg where
+  | pt (c : PTCfg)
+  | pso (c : LocalCfg)
+  | spiral (c : LocalCfg)
+deriving Inhabited
+
+def popBackend : PopCfg → Backend PopSt
+  | .pt c => ptBackend c
+  | .pso c => psoBackend c
+  | .spiral c => spiralBackend c
+
 /-- scripted backend: replays the positions the real optimizer emitted, insisting on the same call kinds -/
 structure Script where
   queue : List Item := []
   loc : Option (LocalCfg × Local) := none       -- when present: the COMPLETE backend model (GFO.Model.Local) is driven instead
   grid : Option (GridCfg × GridSt) := none      -- when present: the complete grid search model (GFO.Model.GridBackend)
-  pt : Option (PTCfg × PopSt) := none           -- when present: the complete parallel tempering model (GFO.Model.Population)
+  pt : Option (PopCfg × PopSt) := none          -- when present: a complete population model (GFO.Model.Population)
 deriving Inhabited
 
 def Script.raisesNow (s : Script) : Bool := match s.queue with
@@ -81,19 +93,19 @@ def scripted : Backend Script where
 /-- … and the complete population model when that is the one loaded -/
 def backendOf : Backend Script where
   initPos s := match s.pt with
-    | some (cfg, g) => ((ptBackend cfg).initPos g).map (fun x => (x.1, { s with pt := some (cfg, x.2) }))
+    | some (cfg, g) => ((popBackend cfg).initPos g).map (fun x => (x.1, { s with pt := some (cfg, x.2) }))
     | none => scripted.initPos s
   iterate s := match s.pt with
-    | some (cfg, g) => ((ptBackend cfg).iterate g).map (fun x => (x.1, { s with pt := some (cfg, x.2) }))
+    | some (cfg, g) => ((popBackend cfg).iterate g).map (fun x => (x.1, { s with pt := some (cfg, x.2) }))
     | none => scripted.iterate s
   evalInit s x := match s.pt with
-    | some (cfg, g) => ((ptBackend cfg).evalInit g x).map (fun g' => { s with pt := some (cfg, g') })
+    | some (cfg, g) => ((popBackend cfg).evalInit g x).map (fun g' => { s with pt := some (cfg, g') })
     | none => scripted.evalInit s x
   evaluate s x := match s.pt with
-    | some (cfg, g) => ((ptBackend cfg).evaluate g x).map (fun g' => { s with pt := some (cfg, g') })
+    | some (cfg, g) => ((popBackend cfg).evaluate g x).map (fun g' => { s with pt := some (cfg, g') })
     | none => scripted.evaluate s x
   finishInit s := match s.pt with
-    | some (cfg, g) => ((ptBackend cfg).finishInit g).map (fun g' => { s with pt := some (cfg, g') })
+    | some (cfg, g) => ((popBackend cfg).finishInit g).map (fun g' => { s with pt := some (cfg, g') })
     | none => scripted.finishInit s
 
 def showTracker (t : Tracker) : String :=
@@ -276,6 +288,8 @@ def exec (m : M) (cmd : String) : P (M × List String) := do
       | "r" => do let p ← pN nd pInt; pure (Draw.rnd p)
       | "f" => do let p ← pN nd pInt; let b ← pBool; pure (Draw.feas p b)
       | "a" => do let pa ← pF; let r ← pRat; pure (Draw.accept pa r)
+      | "p" => do let p ← pN nd pInt; let v ← pN nd pF; pure (Draw.part p v)
+      | "s" => do let v ← pN nd pF; pure (Draw.spiral v)
       | k => throw s!"draw? {k}"
     match m.d.bst.loc, m.d.bst.grid with
     | some (cfg, l), _ => pure ({ m with d := { m.d with bst := { m.d.bst with loc := some (cfg, { l with tape := l.tape ++ [e] }) } } }, [])
@@ -303,14 +317,18 @@ def exec (m : M) (cmd : String) : P (M × List String) := do
                 s!"grid ptr={g.ptr} direction={showOpt toString g.dirCalc} tapeLeft={g.tape.length}"])
     | none => pure (m, ["err:no-grid-backend"])
   | "pnew" => do
+    let kind ← tok
     let nInits ← pNat
     let nNb ← pNat
     let rrp ← pRat
     let nSwap ← pNat
     let inits ← pList (pList (pN m.sp.dims.length pInt))
-    let mcfg : LocalCfg := { kind := .stochastic, nNeighbours := nNb, randRestP := rrp, geo := m.sp.geo }
-    let cfg : PTCfg := { member := mcfg, nIterSwap := nSwap }
     let members : List Local := inits.map (fun l => { initL := l })
+    let cfg : PopCfg ← match kind with
+      | "pt" => pure (PopCfg.pt { member := { kind := .stochastic, nNeighbours := nNb, randRestP := rrp, geo := m.sp.geo }, nIterSwap := nSwap })
+      | "pso" => pure (PopCfg.pso { kind := .hillClimbing, nNeighbours := nNb, randRestP := rrp, geo := m.sp.geo })
+      | "spiral" => pure (PopCfg.spiral { kind := .hillClimbing, nNeighbours := nNb, randRestP := rrp, geo := m.sp.geo })
+      | k => throw s!"population kind? {k}"
     pure ({ m with d := { nInits := nInits, bst := { pt := some (cfg, { members := members }) } }, call := none, warm := [], steps := #[], byCall := #[] }, ["ok"])
   | "pstate" =>
     match m.d.bst.pt with
